@@ -938,39 +938,41 @@ class Scene(DaeObject):
         tried_loading = []
         succeeded = False
         localscope = {}
-        for nodenode in node.findall(collada.tag('node')):
+        for pos, nodenode in enumerate(node.findall(collada.tag('node'))):
             try:
                 N = loadNode(collada, nodenode, localscope)
             except DaeInstanceNotLoadedError as ex:
-                tried_loading.append((nodenode, ex))
+                tried_loading.append((pos, nodenode, ex))
             except DaeError as ex:
                 collada.handleError(ex)
             else:
                 if N is not None:
-                    nodes.append(N)
+                    nodes.append((pos, N))
                     if N.id and N.id not in localscope:
                         localscope[N.id] = N
                     succeeded = True
         while len(tried_loading) > 0 and succeeded:
             succeeded = False
             next_tried = []
-            for nodenode, ex in tried_loading:
+            for pos, nodenode, ex in tried_loading:
                 try:
                     N = loadNode(collada, nodenode, localscope)
                 except DaeInstanceNotLoadedError as ex:
-                    next_tried.append((nodenode, ex))
+                    next_tried.append((pos, nodenode, ex))
                 except DaeError as ex:
                     collada.handleError(ex)
                 else:
                     if N is not None:
-                        nodes.append(N)
+                        nodes.append((pos, N))
                         if N.id and N.id not in localscope:
                             localscope[N.id] = N
                         succeeded = True
             tried_loading = next_tried
         if len(tried_loading) > 0:
-            for nodenode, ex in tried_loading:
+            for pos, nodenode, ex in tried_loading:
                 raise DaeBrokenRefError(ex.msg)
+        # nodes loaded in a retry pass keep their place in the document
+        nodes = [N for pos, N in sorted(nodes, key=lambda pn: pn[0])]
 
         return Scene(id, nodes, xmlnode=node, collada=collada)
 
